@@ -155,7 +155,7 @@ let fam_c01 tier r =
   let grid = List.concat_map templates endings in
   let n = if tier = "quick" then 600 else 20000 in
   let rnd = List.init n (fun k -> rand_history ~io:(k mod 3 = 0) (split r k)) in
-  let flt = List.concat_map (faults_in_ops ~errnos:[ 4; 12 ] is_wait_like)
+  let flt = List.concat_map (faults_in_ops ~errnos:[ 4; 12; 10 ] is_wait_like)
       (List.concat_map templates [ b_exit ~delay:40 7; b_raise ~delay:20 11; b_term_handler 30 (Some 9); b_sleep_forever ]) in
   [ { name = "C01/endings-x-templates"; exhaustive = true; scs = grid };
     { name = "C01/interrupted-calls-in-wait-stop-destroy"; exhaustive = true; scs = flt };
@@ -232,8 +232,16 @@ let fam_c04 tier r =
                      @ [ wait ~h:1 100; start ~h:0 (c 1); pid ~h:0 (); wait ~h:0 100; destroy ~h:0 (); destroy ~h:1 () ] })
         [ true; false ])
       [ argv [ "nonexistent" ]; argv [ "/w" ] ] in
+  let forkfail = List.map (fun opts ->
+      { sc_world = world_with ~fds:user_fds ~files:user_files [ b_exit 0 ];
+        sc_ops = [ new_ (); start ~opts ~script:[ a_sleep 5; a_exit 0 ] None; pid (); start ~opts:{ default_options with o_fork = true } ~script:[ a_sleep 5; a_exit 3 ] None;
+                   pid (); wait 100; destroy () ] })
+      [ { default_options with o_fork = true; o_wd = Some (s "/nonexistent") };
+        { default_options with o_fork = true; o_in = rd ~h:9 5 };
+        { default_options with o_fork = true; o_out = rd ~h:11 5; o_wd = Some (s "/w/child") } ] in
   [ { name = "C04/single-faults"; exhaustive = true; scs = fault_family tier post_c04 };
     { name = "C04/failed-start-next-to-a-zombie"; exhaustive = true; scs = beside };
+    { name = "C04/fork-mode-child-side-failures"; exhaustive = true; scs = forkfail };
     { name = "C04/fault-pairs"; exhaustive = false; scs = fault_pairs r (if tier = "quick" then 300 else 20000) post_c04 } ]
 
 let fam_c05 tier r =
@@ -306,7 +314,7 @@ let fam_c07 tier r =
       { sc_world = world_with ~lat [ script ];
         sc_ops = [ new_ (); start ~opts:{ default_options with o_deadline = z dl } (c 0); sleep (pick r [ 0; 5; 80; 450 ]);
                    stop (stop3 (sa (a ()) (t ())) (sa (a ()) (t ())) (sa (a ()) (t ()))); wait 0; kill (); wait 1000; destroy () ] }) in
-  let flt = List.concat_map (faults_in_ops ~lat:35 ~errnos:[ 4 ] (function OS (SStop _) -> true | _ -> false))
+  let flt = List.concat_map (faults_in_ops ~lat:35 ~errnos:[ 4; 10 ] (function OS (SStop _) -> true | _ -> false))
       (List.filteri (fun j _ -> j mod 11 = 0) grid) in
   [ { name = "C07/triples-x-behaviours"; exhaustive = true; scs = grid };
     { name = "C07/interrupted-calls-in-stop"; exhaustive = true; scs = flt };
@@ -473,7 +481,28 @@ let fam_c10 tier r =
                                     (List.filteri (fun k _ -> tier <> "quick" || k mod 5 = 0) combos @ shorthands)) (List.tl fd_layouts) in
   let closed_file = List.map (fun o -> mk ~files:(std_files @ [ (z 4, Some (z 6)); (z 5, None) ] |> List.map (fun (k, v) -> if int_of_z k = 1 then (k, None) else (k, v))) o [ 0; 1; 2 ])
       [ { default_options with o_parent = true }; { default_options with o_in = rd 2 } ] in
+  (* a start that fails after its pipes were created, then a start of the same handle with other
+     redirects: nothing of the failed attempt may show in how the second one is wired *)
+  let restart = List.concat_map (fun bad ->
+      List.map (fun o2 ->
+          { sc_world = world_with ~fds:user_fds ~files:user_files ~extra_fs:[ (s "/tmp/i", FFile) ] [ [ a_sleep 10; a_exit 0 ] ];
+            sc_ops = [ new_ (); start bad; pid (); start ~opts:o2 (c 0); pid (); OS (SUserOpen (z 30, z 930, false)); OS (SUserOpen (z 31, z 931, false));
+                       write 8; read 1 10; read 2 10; close 0; sleep 30; wait 100; destroy () ] })
+        [ { default_options with o_discard = true }; { default_options with o_parent = true }; { default_options with o_in = rd 3; o_err = rd 1 };
+          { default_options with o_out = rd ~h:5 5; o_in = rd ~p:"/tmp/i" 7 }; default_options ])
+      [ argv [ "nonexistent" ]; argv [ "/w" ] ] in
+  (* fork mode (no exec): the forked child's own 0/1/2 are wired the same way *)
+  let forkm = List.concat_map (fun layout ->
+      List.map (fun o ->
+          let fds = List.filter (fun (k, _) -> int_of_z k > 2 || List.mem (int_of_z k) layout) user_fds in
+          { sc_world = world_with ~fds ~files:user_files ~extra_fs:[ (s "/tmp/i", FFile) ] [ [ a_sleep 10; a_exit 0 ] ];
+            sc_ops = [ new_ (); start ~opts:{ o with o_fork = true } ~script:[ a_sleep 10; a_exit 0 ] None; pid (); wait 100; destroy () ] })
+        [ default_options; { default_options with o_err = rd 1 }; { default_options with o_discard = true }; { default_options with o_parent = true };
+          { default_options with o_in = rd ~h:5 5; o_out = rd ~p:"/tmp/o" 7; o_err = rd 4 }; { default_options with o_in = rd 3; o_out = rd ~f:4 6 } ])
+      fd_layouts in
   [ { name = "C10/type-combinations(std open)"; exhaustive = true; scs = std_open };
+    { name = "C10/fork-mode-x-closed-std-layouts"; exhaustive = true; scs = forkm };
+    { name = "C10/failed-start-then-other-redirects"; exhaustive = true; scs = restart };
     { name = "C10/type-combinations-x-closed-std-layouts"; exhaustive = (tier <> "quick"); scs = layouts };
     { name = "C10/parent-FILE-closed"; exhaustive = true; scs = closed_file } ]
 
@@ -515,8 +544,15 @@ let fam_c11 tier r =
                        (if fork then start ~opts ~script:[ a_sleep 10; a_exit 0 ] None else start ~opts (c 0));
                        pid (); sleep 30; wait 100; destroy (); destroy ~h:1 () ] })
         [ false; true ]) kinds) kinds) kinds in
+  (* the limit cannot be read (getrlimit fails in the child) while descriptors sit above 1024 *)
+  let nolimit =
+    let base = { sc_world = world_with ~rlimit:4096 ~fds:(std_fds @ [ (z 1500, fdent (OExt (z 1800, ARW))); (z 3000, fdent ~cx:true (OExt (z 3300, ARW))); (z 4095, fdent (OExt (z 4395, ARW))) ])
+                              [ [ a_sleep 10; a_exit 0 ] ];
+                 sc_ops = [ new_ (); start (c 0); pid (); wait 100; destroy () ] } in
+    faults_in_ops ~lat:0 ~errnos:[ 1; 22 ] ~max_per:400 (function OStart _ -> true | _ -> false) base in
   [ { name = "C11/random-descriptor-tables"; exhaustive = false; scs = List.init n one };
     { name = "C11/caller-handles-and-fork-mode"; exhaustive = true; scs = user };
+    { name = "C11/high-descriptors-and-a-failing-call-in-start"; exhaustive = true; scs = nolimit };
     { name = "C11/limit-raised-between-starts"; exhaustive = true; scs = raised };
     { name = "C11/huge-limit"; exhaustive = true; scs = huge } ]
 
@@ -561,7 +597,19 @@ let fam_c03 tier r =
     let opts = { default_options with o_env_behavior = z (rint r 2); o_env_extra = extra; o_wd = Option.map s wd } in
     { sc_world = world_with ~cwd ~env:penv ~extra_fs:([ dir cwd ] @ extra_fs) [ b_exit 0 ];
       sc_ops = [ new_ (); start ~opts (Some (s prog :: List.map s args)); pid (); destroy () ] } in
-  [ { name = "C03/random-argv-env-cwd-program"; exhaustive = false; scs = List.init n one } ]
+  (* directories that cannot be entered (missing, a regular file), with programs that do exist; and
+     fork mode, where the requested environment and directory must reach the child without exec *)
+  let wds = List.concat_map (fun wd ->
+      List.concat_map (fun (av, fork) ->
+          List.map (fun (eb, extra) ->
+              let opts = { default_options with o_wd = wd; o_env_behavior = z eb; o_env_extra = extra; o_fork = fork } in
+              { sc_world = world_with ~extra_fs:[ (s "/tmp/f", FFile) ] [ b_exit 0 ];
+                sc_ops = [ new_ (); (if fork then start ~opts ~script:[ a_sleep 5; a_exit 0 ] None else start ~opts av); pid (); wait 100; destroy () ] })
+            [ (0, None); (0, Some [ s "A=1"; s "B= 2" ]); (1, Some [ s "ONLY=1" ]); (1, None); (1, Some []) ])
+        [ (c 0, false); (argv [ "/bin/c0" ], false); (None, true) ])
+      [ None; Some (s "/w/child"); Some (s "/nonexistent"); Some (s "/tmp/f"); Some (s "/w/child/../missing") ] in
+  [ { name = "C03/random-argv-env-cwd-program"; exhaustive = false; scs = List.init n one };
+    { name = "C03/working-directories-x-modes-x-environments"; exhaustive = true; scs = wds } ]
 
 let siblings_family () =
   let cat = [ a_readall 0; a_readall 0; a_readall 0; a_write 1 3; a_exit 0 ] in
@@ -621,6 +669,16 @@ let fam_c02 tier r =
     { name = "C02/stdin-writes"; exhaustive = true; scs = win };
     { name = "C02/start-up-input"; exhaustive = true; scs = input };
     { name = "C02/siblings-see-their-own-eof"; exhaustive = true; scs = siblings_family () };
+    { name = "C02/parent-started-with-closed-standard-streams"; exhaustive = true;
+      scs = List.concat_map (fun layout ->
+          List.map (fun (opts, ops) ->
+              let fds = List.filter (fun (k, _) -> int_of_z k > 2 || List.mem (int_of_z k) layout) std_fds in
+              { sc_world = world_with ~fds [ [ a_readall 0; a_readall 0; a_write 1 3; a_write 2 2; a_exit 0 ] ];
+                sc_ops = [ new_ (); start ~opts (c 0) ] @ ops @ [ sleep 60; read 1 10; read 2 10; read 1 10; wait 200; destroy () ] })
+            [ ({ default_options with o_err = rd 1 }, [ write 5; close 0 ]);
+              ({ default_options with o_err = rd 1; o_input_data = true; o_input_size = z 6 }, []);
+              ({ default_options with o_in = rd 3; o_err = rd 1 }, []) ])
+          [ []; [ 2 ]; [ 0 ]; [ 1 ]; [ 0; 1; 2 ] ] };
     { name = "C02/random-histories"; exhaustive = false; scs = List.init n (fun k -> rand_history (split r k)) } ]
 
 let fam_c16 tier r =
@@ -658,7 +716,15 @@ let fam_c16 tier r =
       let base = { sc_world = world_with [ script ]; sc_ops = [ ORunEx (c 0, { default_options with o_err = rd 1 }, [], [], nat_of_int 3000) ] } in
       let ncalls = max 1 (int_of_z (run_model base).r_last.w_calls) in
       { base with sc_world = world_with ~faults:[ (rint r ncalls, pick r [ 12; 4; 24 ]) ] [ script ] }) in
+  (* a child that never stops writing: the deadline still ends the drain *)
+  let chatter = List.concat_map (fun dl ->
+      List.map (fun pre ->
+          let script = List.concat (List.init 80 (fun _ -> [ a_write 1 300; a_sleep 5 ])) @ [ a_exit 0 ] in
+          { sc_world = world_with [ script ];
+            sc_ops = [ new_ (); start ~opts:{ default_options with o_err = rd 1; o_deadline = z dl } (c 0); sleep pre; drain (); wait 1000; destroy () ] })
+        [ 0; 30; 120 ]) [ 40; 100 ] in
   [ { name = "C16/drain-x-sinks-x-stderr-x-deadlines"; exhaustive = true; scs = grid };
+    { name = "C16/endless-writer-x-deadlines"; exhaustive = true; scs = chatter };
     { name = "C16/exact-buffer-then-quiet"; exhaustive = true; scs = quiet };
     { name = "C16/run_ex-run"; exhaustive = true; scs = run_ex };
     { name = "C16/run_ex-single-faults"; exhaustive = false; scs = faults } ]
